@@ -285,6 +285,8 @@ func (c *concretizer) stmt(s xStmt) {
 			a += ", " + c.expr(s.E)
 		}
 		c.w("{{ " + s.N + " := exec(" + a + ") }}")
+	case "issetexec":
+		c.w("{{ isset(exec(" + strconv.Quote(s.N2) + ")[0]) }}")
 	case "incif":
 		a := strconv.Quote(s.N2)
 		if s.E.K != "none" {
@@ -903,7 +905,7 @@ func xCost(l []xStmt) int {
 			m = len(s.E.Vs) + 1
 		}
 		c += 1 + m*(xCost(s.B)+xCost(s.B2))
-		if s.Op == "yield" || s.Op == "include" || s.Op == "execlet" {
+		if s.Op == "yield" || s.Op == "include" || s.Op == "execlet" || s.Op == "issetexec" {
 			c += 40
 		}
 	}
